@@ -4,10 +4,12 @@ package main
 // tagged with the property, run the spec lemmas tagged with it, classify, replay, write evidence, set exit code.
 
 import (
+	"bytes"
 	"encoding/json"
 	"flag"
 	"fmt"
 	"os"
+	"os/exec"
 	"path/filepath"
 	"regexp"
 	"sort"
@@ -225,6 +227,25 @@ func cmdCheck(args []string) {
 		}
 		records = append(records, rec)
 	}
+	// 4b. bounded stand-ins for assumed dependency behaviour (labelled bounded, never counted as proved)
+	boundedRuns := []map[string]interface{}{}
+	for _, spec := range meta.Bounded {
+		br := runBounded(*repo, *verif, spec, *tier, seed)
+		boundedRuns = append(boundedRuns, br)
+		label := "bounded::" + fmt.Sprint(br["name"])
+		if ok, _ := br["ok"].(bool); !ok {
+			if kf := matchKnown(known, prop, label); kf != nil {
+				lines = append(lines, fmt.Sprintf("KNOWN-FINDING: property=%s %s [%s]", prop, kf.What, label))
+			} else {
+				violations++
+				path := filepath.Join(*verif, "replays", prop+"_"+mangle(label)+".json")
+				b, _ := json.MarshalIndent(map[string]interface{}{"property": prop, "obligation": label, "kind": "bounded", "spec": spec, "run": br}, "", " ")
+				os.WriteFile(path, b, 0o644)
+				lines = append(lines, fmt.Sprintf("VIOLATION property=%s replay=%s", prop, path))
+				lines = append(lines, fmt.Sprintf("  bounded check %s failed on the real code: %s", br["name"], truncate(fmt.Sprint(br["failure"]), 400)))
+			}
+		}
+	}
 	for fn, errs := range undecidedFns {
 		for _, e := range errs {
 			undecided = append(undecided, fmt.Sprintf("UNDECIDED property=%s function=%s reason=%s", prop, fn, e))
@@ -321,8 +342,8 @@ func cmdCheck(args []string) {
 		"not_decided_clauses": meta.NotDecided, "explanation": expl, "lemmas": len(lemmas), "structural": len(structural),
 		"contract_files": P.contracts.Files,
 	}
-	if len(meta.Bounded) > 0 {
-		cov["bounded"] = meta.Bounded
+	if len(boundedRuns) > 0 {
+		cov["bounded"] = boundedRuns
 	}
 	ev := map[string]interface{}{"property_id": prop, "tier": *tier, "seed": seed, "level": level, "coverage": cov,
 		"assumptions": assumptions, "wall_s": round2(time.Since(t0).Seconds()), "violations": violations}
@@ -524,4 +545,59 @@ func (P *Program) describeAssumption(a string) string {
 		return "A-PURE: methods of " + strings.TrimPrefix(a, "A-PURE:") + " are observationally pure accessors of immutable message objects (uninterpreted functions of their arguments; membuffers bodies not verified)"
 	}
 	return a
+}
+
+// runBounded runs one bounded stand-in: a Go test kept under /verif/bounded, injected into a package of the current /repo
+// tree with `go test -overlay` (nothing is written into /repo). spec: "<pkg dir> <file> <test regex> <quick bound> <thorough bound>".
+func runBounded(repo, verif, spec, tier string, seed int) map[string]interface{} {
+	fs := strings.Fields(spec)
+	out := map[string]interface{}{"spec": spec, "label": "bounded", "ok": false}
+	if len(fs) < 5 {
+		out["failure"] = "bad bounded spec"
+		return out
+	}
+	out["name"] = fs[2]
+	bound := fs[3]
+	if tier == "thorough" {
+		bound = fs[4]
+	}
+	out["bound_iterations"] = bound
+	pkgDir := filepath.Join(repo, fs[0])
+	os.MkdirAll(workDir, 0o755)
+	ov := filepath.Join(workDir, fmt.Sprintf("ovb_%d_%d.json", os.Getpid(), time.Now().UnixNano()))
+	ovb, _ := json.Marshal(map[string]interface{}{"Replace": map[string]string{filepath.Join(pkgDir, "zz_verif_bounded_test.go"): filepath.Join(verif, "bounded", fs[1])}})
+	os.WriteFile(ov, ovb, 0o644)
+	defer os.Remove(ov)
+	t0 := time.Now()
+	cmd := exec.Command("go", "test", "-tags", "verif", "-overlay", ov, "-vet=off", "-count=1", "-timeout", "1500s", "-v", "-run", fs[2], ".")
+	cmd.Dir = pkgDir
+	if seed == 0 {
+		seed = 1
+	}
+	cmd.Env = append(os.Environ(), "GOFLAGS=-mod=mod", "GOPROXY=off", "GOSUMDB=off", "GOTOOLCHAIN=local", "VERIF_BOUND="+bound, fmt.Sprintf("VERIF_SEED=%d", seed))
+	var ob bytes.Buffer
+	cmd.Stdout = &ob
+	cmd.Stderr = &ob
+	err := cmd.Run()
+	outS := ob.String()
+	out["secs"] = round2(time.Since(t0).Seconds())
+	oks := []string{}
+	for _, l := range strings.Split(outS, "\n") {
+		if strings.HasPrefix(l, "VERIF-BOUNDED-OK") {
+			oks = append(oks, l)
+		}
+		if i := strings.Index(l, "VERIF-BOUNDED-FAIL"); i >= 0 && out["failure"] == nil {
+			out["failure"] = l[i:]
+		}
+	}
+	out["completed"] = oks
+	if err == nil && len(oks) > 0 && out["failure"] == nil {
+		out["ok"] = true
+	} else {
+		if out["failure"] == nil {
+			out["failure"] = "go test did not report success: " + truncate(outS, 1500)
+		}
+		out["output"] = truncate(outS, 6000)
+	}
+	return out
 }
